@@ -15,3 +15,4 @@ pub mod rowcol;
 pub mod builtins;
 pub mod proc_sx;
 pub mod arrl_sx;
+pub mod recl_sx;
